@@ -163,7 +163,7 @@ pub(crate) fn align_strong_points(outline: &mut Outline, axis: &mut Axis) -> Opt
             let scale = if edge_before.scale == 0 {
                 let edge_after = edges.get(min_ix)?;
                 let scale = fixed_div(
-                    edge_after.pos - edge_before.pos,
+                    edge_after.pos.wrapping_sub(edge_before.pos),
                     edge_after.fpos as i32 - before_fpos,
                 );
                 edges[before_ix].scale = scale;
@@ -171,7 +171,11 @@ pub(crate) fn align_strong_points(outline: &mut Outline, axis: &mut Axis) -> Opt
             } else {
                 edge_before.scale
             };
-            store_point(point, dim, before_pos + fixed_mul(u - before_fpos, scale));
+            store_point(
+                point,
+                dim,
+                before_pos.wrapping_add(fixed_mul(u - before_fpos, scale)),
+            );
         }
     }
     Some(())
